@@ -51,7 +51,7 @@ func (p *Prog) directiveKeysRead() map[string]string {
 
 func init() {
 	register(&Rule{
-		ID: "C14.R1", Props: []string{"C14"}, Min: 12,
+		ID: "C14.R1", Props: []string{"C14", "C02"}, Min: 12,
 		Doc: "directive keys never leak: every constant v-* / data-v-* attribute key that the evaluator reads, writes or compares (HasAttr/GetAttr/SetAttr/..., Attribute{Key: …}, attr.Key == …) is in the set for which the serialiser's shouldIgnoreAttr returns true — reader table and filter table agree",
 		Run: func(p *Prog, c *Ctx) {
 			ignored := map[string]bool{}
